@@ -37,8 +37,44 @@ static const char *val_pool[] = {
 };
 #define N_VALS ((int)(sizeof(val_pool) / sizeof(val_pool[0])))
 
+/* raw mode (descriptor events): keys and scalars are written as arrays of
+ * abstract character names, see Descriptor.tla */
+static int g_raw;
+
+static const struct { const char *name; unsigned char byte; } char_table[] = {
+    {"a", 'a'}, {"Z", 'Z'}, {"0", '0'}, {"7", '7'}, {"hi1", 0xC3},
+    {"hi2", 0xA9}, {"tab", '\t'}, {"nl", '\n'}, {"!", '!'}, {":", ':'},
+    {".", '.'}, {"#", '#'}, {"+", '+'}, {"=", '='}, {"[", '['}, {"]", ']'},
+    {"{", '{'}, {"}", '}'}, {"sp", ' '}, {"-", '-'}, {"_", '_'}, {"bs", '\\'},
+};
+#define N_CHARS ((int)(sizeof(char_table) / sizeof(char_table[0])))
+
+static void put_raw(const char *bytes)
+{
+    vt_put("[");
+    for (const unsigned char *p = (const unsigned char *)bytes; *p; ++p) {
+	int i;
+
+	if (p != (const unsigned char *)bytes)
+	    vt_put(",");
+	for (i = 0; i < N_CHARS; ++i) {
+	    if (char_table[i].byte == *p)
+		break;
+	}
+	if (i < N_CHARS)
+	    vt_put("\"%s\"", char_table[i].name);
+	else
+	    vt_put("\"?%02x\"", *p);
+    }
+    vt_put("]");
+}
+
 static void put_key_id(const char *bytes)
 {
+    if (g_raw) {
+	put_raw(bytes);
+	return;
+    }
     for (int i = 0; i < N_KEYS; ++i) {
 	if (strcmp(bytes, key_pool[i]) == 0) {
 	    vt_put("\"k%d\"", i);
@@ -57,6 +93,10 @@ static void put_key_id(const char *bytes)
 
 static void put_val_id(const char *bytes)
 {
+    if (g_raw) {
+	put_raw(bytes);
+	return;
+    }
     for (int i = 0; i < N_VALS; ++i) {
 	if (strcmp(bytes, val_pool[i]) == 0) {
 	    vt_put("\"v%d\"", i);
@@ -745,6 +785,147 @@ int main(int argc, char **argv)
 	    }
 	    end_case(&root);
 	}
+	return 0;
+    }
+    if (argc >= 6 && (strcmp(argv[1], "desc") == 0 ||
+		strcmp(argv[1], "descr") == 0)) {
+	/* desc FN LEN FROM TO: every character sequence of length LEN
+	 * descr FN SEED FROM TO: random token concatenations */
+	const char *fn = argv[2];
+	int random = strcmp(argv[1], "descr") == 0;
+	long param = atol(argv[3]);
+	long from = atol(argv[4]), to = atol(argv[5]);
+	int setctx = strcmp(fn, "Set") == 0 || strcmp(fn, "SetSub") == 0;
+	static const char *frag[] = {
+	    "a", "Z", "a Z", "\\.", ".", "[0]", "[7+]", "[+]", "{}", "[]", "=",
+	    "#", " ", "7", "-", "_", "!", "\xC3\xA9", "[", "]", "\\", "a.Z",
+	    "[ 0 ]", "\t", "0",
+	};
+	int nfrag = (int)(sizeof(frag) / sizeof(frag[0]));
+
+	g_raw = 1;
+	vt_put("{\"e\":\"Reset\",\"case\":\"%s:%s:%ld:%ld\"}", argv[1], fn,
+		param, from);
+	vt_end_line();
+	for (long c = from; c < to; ++c) {
+	    vnaproperty_t *root = NULL;
+	    char text[128];
+	    int len = 0, ok = 0, e = 0;
+
+	    if (!random) {
+		long x = c;
+
+		for (int i = 0; i < (int)param; ++i) {
+		    text[len++] = (char)char_table[x % N_CHARS].byte;
+		    x /= N_CHARS;
+		}
+	    } else {
+		vt_rng_t rng;
+		int n;
+
+		vt_seed(&rng, (uint64_t)param * 7919ull + (uint64_t)c);
+		n = 2 + vt_below(&rng, 5);
+		for (int i = 0; i < n && len < 100; ++i) {
+		    const char *f = frag[vt_below(&rng, nfrag)];
+
+		    strcpy(text + len, f);
+		    len += (int)strlen(f);
+		}
+	    }
+	    text[len] = '\0';
+	    if (!setctx) {
+		(void)LIB(vnaproperty_set(&root, "a.a=a"));
+		(void)LIB(vnaproperty_set(&root, "Z[0]=a"));
+	    }
+	    vt_put("{\"e\":\"Desc\",\"fn\":\"%s\",\"start\":\"%s\","
+		    "\"chars\":", fn, setctx ? "null" : "doc0");
+	    put_raw(text);
+	    vt_put(",");
+	    if (strcmp(fn, "Set") == 0) {
+		ok = LIB(vnaproperty_set(&root, "%s", text)) == 0;
+		e = errno;
+		vt_put("\"val\":0,");
+	    } else if (strcmp(fn, "SetSub") == 0) {
+		ok = LIB(vnaproperty_set_subtree(&root, "%s", text)) != NULL;
+		e = errno;
+		vt_put("\"val\":0,");
+	    } else if (strcmp(fn, "Del") == 0) {
+		ok = LIB(vnaproperty_delete(&root, "%s", text)) == 0;
+		e = errno;
+		vt_put("\"val\":0,");
+	    } else if (strcmp(fn, "Type") == 0) {
+		int rv = LIB(vnaproperty_type(root, "%s", text));
+
+		e = errno;
+		ok = rv != -1;
+		if (rv == 'm' || rv == 'l' || rv == 's')
+		    vt_put("\"val\":\"%c\",", rv);
+		else
+		    vt_put("\"val\":\"none\",");
+	    } else if (strcmp(fn, "Count") == 0) {
+		int rv = LIB(vnaproperty_count(root, "%s", text));
+
+		e = errno;
+		ok = rv != -1;
+		vt_put("\"val\":%d,", rv);
+	    } else if (strcmp(fn, "Keys") == 0) {
+		const char **keys = LIB(vnaproperty_keys(root, "%s", text));
+
+		e = errno;
+		ok = keys != NULL;
+		vt_put("\"val\":[");
+		if (keys != NULL) {
+		    for (const char **cpp = keys; *cpp != NULL; ++cpp) {
+			if (cpp != keys)
+			    vt_put(",");
+			put_raw(*cpp);
+		    }
+		    free((void *)keys);
+		}
+		vt_put("],");
+	    } else if (strcmp(fn, "Get") == 0) {
+		const char *v = LIB(vnaproperty_get(root, "%s", text));
+
+		e = errno;
+		ok = v != NULL;
+		vt_put("\"val\":");
+		if (v != NULL)
+		    put_raw(v);
+		else
+		    vt_put("\"none\"");
+		vt_put(",");
+	    } else if (strcmp(fn, "GetSub") == 0) {
+		vnaproperty_t *sub = LIB(vnaproperty_get_subtree(root, "%s",
+			    text));
+
+		e = errno;
+		ok = sub != NULL || e == 0;
+		vt_put("\"val\":");
+		if (ok)
+		    project(sub, 0);
+		else
+		    vt_put("{\"t\":\"n\"}");
+		vt_put(",");
+	    } else {
+		fprintf(stderr, "unknown fn %s\n", fn);
+		return 3;
+	    }
+	    vt_put("\"ok\":%d,\"err\":\"%s\",\"obs\":", ok, vt_errname(e));
+	    project(root, 0);
+	    vt_put("}");
+	    vt_end_line();
+	    (void)LIB(vnaproperty_delete(&root, "."));
+	    if (root != NULL || vt_alloc_live != 0) {
+		vt_put("{\"e\":\"End\",\"live\":%ld,\"rootNull\":%d}",
+			vt_alloc_live, root == NULL);
+		vt_end_line();
+		vt_put("{\"e\":\"Reset\",\"case\":\"%s:%s:%ld:%ld\"}",
+			argv[1], fn, param, c + 1);
+		vt_end_line();
+	    }
+	}
+	vt_put("{\"e\":\"End\",\"live\":%ld,\"rootNull\":1}", vt_alloc_live);
+	vt_end_line();
 	return 0;
     }
     fprintf(stderr, "usage: %s exh DEPTH FROM TO | rand SEED FROM TO LEN | "
